@@ -21,6 +21,8 @@ import H4.Driver.SkpHuff
 import H4.Driver.NBit
 import H4.Driver.DD
 import H4.Driver.Tools
+import H4.Driver.Ro
+import H4.Driver.Ids
 open H4.Driver
 
 /-- state of every stateful engine; reset at each `CASE` line -/
@@ -38,10 +40,14 @@ structure World where
   mcache : H4.MCache.State := mcacheInit
   limits : LimSt := {}
   dd : DDState := {}
+  ro : RoSt := {}
+  ids : IdsSt := {}
 
 def stepWorld (w : World) (engine : String) (args : List String) : World × String :=
   match engine with
   | "rle" => (w, stepRle args)
+  | "ro" => let (r, out) := stepRo w.ro args; ({ w with ro := r }, out)
+  | "ids" => let (r, out) := stepIds w.ids args; ({ w with ids := r }, out)
   | "dfrle" => (w, stepDfrle args)
   | "xapi" => (w, stepXapi args)
   | "dd" => let (d, out) := stepDD w.dd args; ({ w with dd := d }, out)
